@@ -34,7 +34,9 @@ TrAccTx == /\ IsEvent("acc_tx")
               ELSE CASE E.kind \in {"resp", "half", "rest"} -> AccRespond(E.s, E.kind) /\ (E.kind # "rest" => Head(socks[E.s].accPend) = E.r)
                      [] E.kind = "event" -> AccEvent(E.s) /\ socks'[E.s].evSent = E.n
                      [] E.kind = "unsol" -> AccUnsolicited(E.s)
-TrPeerClose == IsEvent("peer_close") /\ (IF Dead(E.s) THEN UNCHANGED vars ELSE PeerClose(E.s, E.how))
+TrPeerClose == IsEvent("peer_close") /\ (IF Dead(E.s) THEN UNCHANGED vars
+                                          ELSE IF socks[E.s].pclose = "fin" /\ E.how = "rst" THEN PeerAbort(E.s)
+                                          ELSE PeerClose(E.s, E.how))
 \* the owner's listener was called: emitted by the read that completes an EVENT message
 TrListener == /\ IsEvent("listener")
               /\ CtrlRead(E.s) /\ Head(socks[E.s].a2c) = <<"event", E.n>>
